@@ -240,7 +240,8 @@ var bundles = []func(rng *rand.Rand, a map[string]string){
 				{"rewrite-target", "/new"}, {"proxy-body-size", "1m"}, {"waf", "modsecurity"}, {"ssl-redirect", "false"},
 				{"denylist-source-range", "192.168.0.0/16"}, {"limit-rps", "10"}, {"app-root", "/app"}, {"redirect-from", "old.example"},
 				{"server-alias", "alias.example"}, {"redirect-to", "http://other.example/x"}, {"var-namespace", "true"},
-				{"affinity", "cookie"}, {"slots-min-free", "2"}, {"dynamic-scaling", "false"}, {"service-upstream", "true"}})
+				{"affinity", "cookie"}, {"slots-min-free", "2"}, {"dynamic-scaling", "false"}, {"service-upstream", "true"},
+				{"use-resolver", "kube"}, {"use-resolver", "nosuch"}})
 			a[ann+kv[0]] = kv[1]
 		}
 	},
@@ -333,6 +334,8 @@ var globalKeys = [][]string{
 	{"cross-namespace-secrets-passwd", "allow"},
 	{"tls-alpn", "h2"},
 	{"oauth", "oauth2_proxy"},
+	{"dns-resolvers", "kube=10.96.0.10:53", "kube=10.96.0.10:53\nother=10.96.0.11"},
+	{"prometheus-port", "9101"},
 }
 
 func genGlobalEmpty() *api.ConfigMap {
